@@ -170,11 +170,47 @@ class AChild(ABase):
 class NBase(typing.NamedTuple):
     a: int
     b: str = "b"
+# named tuples whose FIRST field holds a 2-element value (they must not be read as an iterable of pairs)
+class Tag(typing.NamedTuple):
+    ns: str
+    name: str = ""
+class Span(typing.NamedTuple):
+    bounds: typing.Tuple[int, int]
+    label: str
+class Country(typing.NamedTuple):
+    code: str
+    population: int
+# annotated classes whose constructor collects (some of) the fields through **kwargs
+class KwItem:
+    name: str
+    tags: typing.List[str]
+    note: typing.Optional[str]
+    def __init__(self, **kwargs):
+        self.__dict__.update(kwargs)
+    def __eq__(self, o):
+        return type(o) is type(self) and vars(o) == vars(self)
+    def __repr__(self):
+        return f"KwItem({vars(self)})"
+class KwTagged:
+    key: str
+    note: typing.Optional[str]
+    qty: int
+    def __init__(self, key, **extra):
+        self.key = key
+        self.__dict__.update(extra)
+    def __eq__(self, o):
+        return type(o) is type(self) and vars(o) == vars(self)
+    def __repr__(self):
+        return f"KwTagged({vars(self)})"
 """
 INHERIT_CASES = [("SChild", "SChild(7, 'n', ['a', 'b'], 'hello')"), ("DefChild", "DefChild(41, 'x')"), ("PChild", "PChild(5, 'five')"),
                  ("GrandChild", "GrandChild(1, 'g', [], 'n', 3)"), ("LibChild", "LibChild(2, 'two')"), ("HChild", "HChild(3, 'three')"),
                  ("AChild", "AChild(4, 'four')"), ("list[SChild]", "[SChild(1, 'a', ['t'])]"), ("dict[str, DefChild]", "{'k': DefChild(5, 'five')}"),
-                 ("typing.Optional[HChild]", "HChild(9, 'nine')"), ("tuple[AChild, LibChild]", "(AChild(1), LibChild(2))")]
+                 ("typing.Optional[HChild]", "HChild(9, 'nine')"), ("tuple[AChild, LibChild]", "(AChild(1), LibChild(2))"),
+                 ("Tag", "Tag('py', 'ok')"), ("Span", "Span((1, 2), 'ab')"), ("Span", "Span((1, 2), 'intro')"), ("Country", "Country('US', 331)"),
+                 ("list[Country]", "[Country('FRA', 68), Country('DE', 84)]"), ("dict[str, Tag]", "{'k': Tag('ab', 'cd')}"), ("NBase", "NBase(1, 'b')"),
+                 ("KwItem", "KwItem(name='1', tags=['null', '[1]'], note=None)"), ("KwTagged", "KwTagged('k', note='null', qty=2)"),
+                 ("list[KwItem]", "[KwItem(name='true', tags=['1'], note=None)]")]
 
 
 def _inherit_child(case):
